@@ -20,7 +20,8 @@ EXPLANATION = (
 ASSUMPTIONS = [
     "real arithmetic; |tf-t0| <= N*|dt0|, 1/64 <= |dt0| <= 256, |t0|,|tf| <= 64",
     "rhs = uninterpreted function of (t, y) with syntactic congruence; embedded pair: ctrl contract stub (<= 1 rejection)",
-    "histories are monotone (one direction per system); event-terminated and failed histories are covered by C09 / C12 with the same piece checks",
+    "histories are monotone (one direction per system); event histories use the events oracle of C07-C09 (differential_system.handle_events stubbed by an arbitrary output "
+    "satisfying the guarantee proved of the real one); failed-then-resumed histories are decided in C12 with the same piece checks",
 ]
 BOUNDS = {"quick": dict(N=3, calls="<= 2"), "thorough": dict(N=4, calls="<= 2")}
 OUTSIDE = ["the O(h^4) interpolation error bound between grid points (analytic estimate; exactness on cubics is C17)", "IEEE rounding"]
@@ -39,6 +40,10 @@ def instances(tier):
         out.append(dict(id="continued-%s-N2" % fam, family=fam, N=2, mode="pieces", cont=True, budget=b))
         out.append(dict(id="continued-lookup-%s-N2" % fam, family=fam, N=2, mode="lookup", cont=True, budget=b))
     out.append(dict(id="richardson-euler-N2", family="euler", N=2, mode="richardson", budget=b))
+    # histories with events: non-terminal, terminal (rolled-back step), and continuation after the stop - the real event section of integrate
+    # driven by the events oracle of C07-C09
+    for fam, evs in ((("euler", "T"), ("euler", "nT"), ("rk4", "T")) if quick else (("euler", "T"), ("euler", "nT"), ("rk4", "T"), ("rk4", "nT"), ("sympl_euler", "T"), ("midpoint", "nT"))):
+        out.append(dict(id="events-%s-%s-N2" % (fam, evs), family=fam, N=2, mode="events", events=list(evs), dense=True, max_reports=2, kind="integrate", budget=b))
     return out
 
 
@@ -101,6 +106,9 @@ def lookup_checks(c, P, a, q, backward, regions=None):
 
 
 def scenario(c, inst):
+    if inst.get("mode") == "events":
+        from . import events_common as EC
+        return EC.scenario(c, inst, {"C06"})
     if c.symbolic:
         c.ackermann = False
     t0, tf, dt0 = c.real("t0"), c.real("tf"), c.real("dt0")
